@@ -139,9 +139,15 @@ func vfModifyCut(sched int) {
 		vfAssert(len(s.cs) == 1 && s.cs["B"] != nil, "C10:disconnected-session-removed")
 		// the departure of a session does not move the election: the highest id learnt stays, the standby is
 		// not promoted
-		if st.pos >= 2 {
+		if st.pos >= 2 && sched == 0 {
 			vfAssert(s.curElecID != nil && vfAnd(s.curElecID.High == 1, s.curElecID.Low == 5), "C10:disconnect-leaves-election-state-unchanged")
 			vfAssert(s.curMaster != "B", "C10:disconnect-leaves-election-state-unchanged")
+		} else if st.pos >= 2 {
+			// under pre-emption a message that was received may not have been processed when the handler returned:
+			// the election state is the one before or the one after the announcement, as a whole
+			isNew := s.curElecID != nil && vfAnd(s.curElecID.High == 1, s.curElecID.Low == 5)
+			isOld := s.curElecID != nil && vfAnd(s.curElecID.High == bid.High, s.curElecID.Low == bid.Low)
+			vfAssert(vfOr(vfAnd(isNew, s.curMaster != "B"), vfAnd(isOld, s.curMaster == "B")), "C10:disconnect-leaves-election-state-unchanged")
 		} else {
 			vfAssert(s.curElecID != nil && vfAnd(s.curElecID.High == bid.High, s.curElecID.Low == bid.Low), "C10:disconnect-leaves-election-state-unchanged")
 			vfAssert(s.curMaster == "B", "C10:disconnect-leaves-election-state-unchanged")
